@@ -29,7 +29,7 @@ ASSUMPTIONS = ['polls are issued by one thread (as the agent\'s single timer doe
                '"polling continues" is decided as bounded progress: timer thread alive and a further request within '
                '100 intervals; alive but silent is inconclusive']
 REQUIRE = {'scripts_checked': 250, 'updates_applied': 800, 'gates_engaged': 40, 'inflight_overlaps': 100, 'hash_checks': 800,
-           'failed_polls': 150, 'timer_sessions': 6}
+           'failed_polls': 150, 'timer_sessions': 6, 'restart_sessions': 3}
 
 HOST = '''"""c12 probe"""
 
@@ -46,7 +46,8 @@ def probe(x):
 
 def plan(tier, seed):
     n = {'quick': 1, 'thorough': 15}[tier]
-    return split_seeds('c%s' % seed, 320 * n, 12, 'script') + split_seeds('t%s' % seed, 8 * n, 4, 'timer')
+    return split_seeds('c%s' % seed, 320 * n, 12, 'script') + split_seeds('t%s' % seed, 8 * n, 4, 'timer') + \
+        split_seeds('r%s' % seed, 4 * n, 4, 'restart')
 
 
 def fresh_config(custom):
@@ -398,12 +399,72 @@ def case_timer(seed, out, spec, wd):
     out.case({'kinds': kinds}, nontrivial=True, sample=witness)
 
 
+def case_restart(seed, out, spec, wd):
+    """Agent shut down and started again in one process: the new agent must act on the service's configuration."""
+    from vf import e2e
+    r = Rng('c12r', seed)
+    arg = {'change_between': r.chance(0.5), 'restarts': r.pick([1, 2])}
+    res = e2e.call_child('vf.props.c12', 'child_restart', arg, timeout=120)
+    replay = replay_spec(spec, seed)
+    if res.get('inconclusive'):
+        out.inconc('C12 restart: ' + res['inconclusive'])
+        return
+    if res.get('child_failed'):
+        out.violation('convergence:restart-session-failed', res.get('stderr', '')[-600:], arg, replay)
+        return
+    for i, life in enumerate(res['lives']):
+        if not life['acted']:
+            out.violation('convergence:restarted-agent-ignores-configuration',
+                          'agent life %d (after %d shutdowns) reported hash %r and never acted on the configuration '
+                          'the service holds (%r)' % (i, i, life['first_hash'], life['service_hash']),
+                          dict(arg, lives=res['lives']), replay)
+            break
+    out.count('restart_sessions')
+    out.case({'restart': arg}, nontrivial=True, sample={'restart': arg, 'lives': res['lives']})
+
+
+def child_restart(arg):
+    import time
+    from vf import e2e
+    from vf.server import LoopbackServer
+    from deepproto.proto.tracepoint.v1.tracepoint_pb2 import TracePointConfig
+    import deep
+    from vf.targets import e2e_target
+    marks = e2e.marker_lines()
+    srv = LoopbackServer()
+    args = {'fire_count': '-1', 'fire_period': '0'}
+    lives = []
+    try:
+        for life in range(arg['restarts'] + 1):
+            if life == 0 or arg['change_between']:
+                srv.set_config('cfg-%d' % life, [TracePointConfig(ID='tp-%d' % life, path='e2e_target.py',
+                                                                   line_number=marks['deposit_mid'], args=args)])
+            n_polls = len(srv.polls)
+            n_snaps = len(srv.snapshots)
+            agent = deep.start(srv.config({'POLL_TIMER': 0.05}))
+            if not srv.wait_polls(n_polls + 1):
+                return {'inconclusive': 'no poll in life %d' % life}
+            first_hash = srv.polls[n_polls][0].current_hash
+            end = time.monotonic() + 6
+            while time.monotonic() < end and len(srv.snapshots) == n_snaps:
+                e2e_target.run(1)
+                srv.wait_snapshots(n_snaps + 1, 0.2)
+            lives.append({'acted': len(srv.snapshots) > n_snaps, 'first_hash': first_hash, 'service_hash': srv.hash,
+                          'polls': len(srv.polls) - n_polls})
+            agent.shutdown()
+    finally:
+        srv.stop()
+    return {'lives': lives}
+
+
 def run_shard(spec, out):
     wd = Workdir('c12')
     try:
         for seed in spec_seeds(spec):
             if spec['kind'] == 'script':
                 case_script(seed, out, spec, wd.path)
+            elif spec['kind'] == 'restart':
+                case_restart(seed, out, spec, wd.path)
             else:
                 case_timer(seed, out, spec, wd.path)
     finally:
